@@ -625,12 +625,12 @@ func (c *c19) runFixedAbsurdSlice(r *core.R) {
 	for _, f := range in {
 		os.WriteFile(filepath.Join(dir, f.Name), f.Data, 0644)
 	}
-	for _, size := range []int{1 << 62, 1<<63 - 4, 1 << 50} {
+	for _, size := range []uint64{1 << 62, 1<<63 - 4, 1 << 50} {
 		rs := par2rw.BuildSet(64, in)
 		// declare the absurd slice size consistently: checksums stay those of
 		// the 64-byte padded slices (they cannot be recomputed for 2^62 bytes),
 		// IDs and set ID are re-derived.
-		rs.Main.SliceSize = uint64(size)
+		rs.Main.SliceSize = size
 		rs.SetID = md5.Sum(rs.Main.Body())
 		pk := append([]par2rw.Packet{rs.CreatorPacket("ref")}, rs.Critical()...)
 		idx := filepath.Join(dir, "arch.par2")
@@ -857,6 +857,7 @@ func (c *c19) Run(cs core.Case) core.Result {
 type p1Mutation struct {
 	desc  string
 	big   bool
+	solo  bool // every other parity volume is removed
 	apply func(b []byte) []byte
 }
 
@@ -901,6 +902,26 @@ func p1Mutations(b []byte, rederive bool) []p1Mutation {
 	ms = append(ms, p1Mutation{desc: "set hash wrong", apply: func(x []byte) []byte { x[0x20] ^= 1; return x }})
 	ms = append(ms, p1Mutation{desc: "one parity/comment byte appended", apply: func(x []byte) []byte { return append(x, 0x77) }})
 	ms = append(ms, p1Mutation{desc: "last byte dropped", apply: func(x []byte) []byte { return x[:len(x)-1] }})
+	if binary.LittleEndian.Uint64(b[0x30:]) != 0 {
+		// a parity volume whose recovery data is consistently shorter (data
+		// size field adjusted), standing alone beside the index: volumes
+		// that belong to shorter revisions of the files
+		ds := binary.LittleEndian.Uint64(b[0x58:])
+		for _, nl := range []uint64{0, 1, 2, ds / 2, ds - 2, ds - 1} {
+			if nl >= ds {
+				continue
+			}
+			nl := nl
+			ms = append(ms, p1Mutation{desc: fmt.Sprintf("recovery data cut to %d of %d bytes, size field adjusted", nl, ds), solo: true, apply: func(x []byte) []byte {
+				do := binary.LittleEndian.Uint64(x[0x50:])
+				if do+nl > uint64(len(x)) {
+					return x
+				}
+				binary.LittleEndian.PutUint64(x[0x58:], nl)
+				return x[:do+nl]
+			}})
+		}
+	}
 	ms = append(ms, p1Mutation{desc: "data area dropped", apply: func(x []byte) []byte {
 		do := int(binary.LittleEndian.Uint64(x[0x50:]))
 		if do <= len(x) && do >= 0x60 {
@@ -990,7 +1011,14 @@ func (c *c19) runPar1(r *core.R, h *hostileEnv, j *c19Judge, p c19Params, rng *r
 		applyDamage()
 		j.big = t.m.big
 		alone := ""
-		if mi%3 == 2 && strings.HasSuffix(t.file, ".par") {
+		if t.m.solo {
+			for _, fn := range arch {
+				if fn != t.file && !strings.HasSuffix(fn, ".par") {
+					os.Remove(filepath.Join(h.dir, fn))
+				}
+			}
+			alone = ", the only parity volume present"
+		} else if mi%3 == 2 && strings.HasSuffix(t.file, ".par") {
 			// the mutated index stands alone: no parity volume beside it
 			for _, fn := range arch {
 				if fn != t.file {
